@@ -66,7 +66,9 @@ def master(text):
         if len(_MASTERS) > 20000:
             _MASTERS.clear()
         try:
-            hit = ('ok', parser.parse(text))
+            # keep a private structural copy: should the parser under test hand out shared
+            # (cached) AST objects, nothing the system does to them later can reach the master
+            hit = ('ok', clone(parser.parse(text)))
         except Exception as e:    # ParseError and anything else the parser raises
             hit = ('err', e)
         _MASTERS[text] = hit
